@@ -265,7 +265,8 @@ ROUND6 = {
     "C03": "R03.9 the executor's per-shard ServerConfig is touched only by the CONFIG handlers.",
     "C04": "R04.13 (= C15 R15.13) an Incomplete answer is decided by a missing terminator or an exact position, never by a product/estimate.",
     "C05": "R05.10 PartialEq of Value and of every stored type is derived or field-by-field `==` (no tolerance, no projection).",
-    "C06": "R06.10 every delta a ShardReplicaState emits carries (a clone of) the very value it stores in replicated_keys.",
+    "C06": "R06.10 every delta a ShardReplicaState emits carries (a clone of) the very value it stores in replicated_keys (an edited copy is rejected). "
+           "R06.11 (= C08 R08.2/R08.3) stamps follow the tick taken for the write; remote inserts are dominated by the clock update.",
     "C07": "R07.6 a LamportClock's replica id is written only at construction (no field store, no whole-value store through &mut).",
     "C08": "R08.10 (= C11 R11.3) recovered checkpoint and deltas are handed to the shard actors as recovered. R08.11 create_checkpoint records "
            "exactly the last_segment_id its caller passed in with the snapshot.",
@@ -280,7 +281,9 @@ ROUND6 = {
            "as read/decompressed (no truncate/resize by an unchecksummed size). R14.15 no hand-written serde impl besides SDS.",
     "C15": "R15.13 an Incomplete answer is decided by a missing terminator or an exact position. R15.14 the terminator scans resume at candidate+1. "
            "R15.5 also: exactly one answer (the sentinel) on the no-terminator edge.",
-    "C18": "R18.11 the receiving side of a sync merges every delivered delta (every iteration passes apply_remote_delta; whole batch).",
+    "C17": "R17.7 the shard router never builds and sends a mutating command and then sends another command whose failure it reports.",
+    "C18": "R18.11 the receiving side of a sync merges every delivered delta (every iteration passes apply_remote_delta; whole batch). "
+           "R18.12 (= the C07 certificate R07.0-R07.2) the merge functions are certified lattice joins.",
     "C19": "R19.7 GossipRouter constructors neither read the ring nor prune the address map. R19.8 HashRing.replication_factor is stored only by the constructor.",
 }
 for _pid, _extra in ROUND6.items():
